@@ -276,6 +276,8 @@ def gen(rng, tier, shard, batch):
     # quotient-digit estimate of 2^64 + 1 (divisor with normalised low word > high word; operand found by solving
     # a * x mod yn in [(2^64 + 1) * yn1, yn) with a Euclid-like search)
     reqs += K.est_gt_b_requests(rng, 6 if tier == "quick" else 20, G.fD)[0]
+    # estimate numerator an exact multiple of the divisor's normalised high word, normalised low word tiny
+    reqs += K.exact_multiple_requests(rng, 120 if tier == "quick" else 300, G.fD)
     # wide products whose cut-off digits are a tie (or zero) plus a non-zero multiple of 2^32 / 2^64 / 2^96
     if batch == 0:
         for x_, a_, y_, b_, n_ in C.wide_tie_word_products(rng)[shard::E.NCPU]:
